@@ -90,6 +90,9 @@ scen("C04", "stage", "lexical-only-spelling-does-not-unstage", INIT + [w("f", "1
      "add f/ (and nosuch/../f, g/../f) removed the existing, unchanged tracked file f from the staging area")
 scen("C04", "stage", "rm-beneath-a-file", INIT + [w("a/b", "1"), w("x", "2"), w("y", "3"), g("add", "a", "x", "y"), rmdir("a"), w("a", "file now"), g("rm", "x", "a/b", "y"), g("status")],
      "rm of a tracked path whose directory became a regular file failed with ENOTDIR after removing the arguments before it")
+scen("C08", "reset", "hard-over-directory-of-empty-directories", INIT + [w("p", "file"), w("k", "k"), g("add", "p", "k"), g("commit", "-m", "one"), g("rm", "p"), w("p/q/r", "deep"), g("add", "p"), g("commit", "-m", "two"),
+     g("rm", "p"), g("commit", "-m", "three"), g("reset", "--hard", "HEAD@{2}"), g("status")],
+     "reset --hard could not write a file whose name was taken by a directory that holds only empty directories (left behind by rm)")
 print("pins written")
 
 # ---- C15 / C16 pins: points are selected by operation class of the fault-free run (at_op)
